@@ -32,6 +32,7 @@ def run(ctx):
     R.rule("C28-R1", "tree mutation is dominated by defrost() and followed by freeze() under autoFreeze", floor=4)
     R.rule("C28-R2", "trieNode::get: one length expression for results naming the current node", floor=2)
     R.rule("C28-R3", "size() and remove() consistent across representations", floor=5)
+    R.rule("C28-R6", "frozen lookup: the match length is recorded together with the value it belongs to", floor=2)
     R.rule("C28-R5", "remove prunes a node only when it holds no value and has no children", floor=4)
     R.rule("C28-R4", "frozen layout in sorted map order; lookup selected by isFrozen", floor=4)
 
@@ -174,6 +175,36 @@ def run(ctx):
              "child erased only when empty" if ok else "a child node is erased without knowing that it holds no value and has no children")
     if n_ret < 2 or len(erases) < 2:
         raise AnalysisBroken("nestedRemove: %d returns / %d erases (expected >= 2 each)" % (n_ret, len(erases)))
+    # ---- R6: the walk may run on through prefixes of longer keys after the last stored key; the length must be the one at that key ------
+    glf = inst(prog, "getLongest", 2)
+    gcfg = glf.cfg
+    ctors = [n for n in glf.walk() if n["k"] in ("CXXConstructExpr", "CXXTemporaryObjectExpr") and callee(n).endswith("result_t::result_t") and len(kids(n)) == 3 and
+             kids(n)[2]["k"] != "CXXDefaultArgExpr" and kids(n)[1]["k"] != "CXXDefaultArgExpr"]
+    if not ctors:
+        raise AnalysisBroken("trie::getLongest: successful result construction not found")
+    for n in ctors:
+        ln, vi = strip(kids(n)[1]), strip(kids(n)[2])
+        both_vars = ln["k"] == "DeclRefExpr" and ln.get("loc") and vi["k"] == "DeclRefExpr" and vi.get("loc")
+        ok = bool(both_vars)
+        detail = "length and value index are returned from the two variables recorded at the last stored key"
+        if both_vars:
+            defs = glf.local_defs()
+            vw = [d for d in defs.get(vi["d"], []) if d["k"] != "VarDecl"]
+            lw = [d for d in defs.get(ln["d"], []) if d["k"] != "VarDecl"]
+            for w in vw:
+                bw = gcfg.position(w)
+                if not any(gcfg.position(x) and gcfg.position(x)[0] == bw[0] for x in lw):
+                    ok = False
+                    detail = "the value index is updated without the length next to it"
+            if not vw or not lw:
+                ok = False
+                detail = "length / value index are never recorded during the walk"
+        else:
+            detail = ("the returned length is `%s`, not a length recorded together with the value: after the last stored key the walk continues through prefixes of longer keys "
+                      "(`..` towards `...`), so the shorter key is returned with the longer length and the tokenizer skips characters (`a..b` -> `a . b`)" % noid(render(ln, False)))
+        R.ob("C28-R6", ok, "occa::trie<TM>::getLongest", "result(this, %s, %s)" % (noid(render(ln, False))[:30], noid(render(vi, False))[:30]), glf.site(n), detail)
+    R.ob("C28-R6", True, "occa::trie<TM>::getLongest", "%d successful result construction(s) analysed" % len(ctors), "%s:%d" % (glf.relfile, glf.d["line"]), "", nontrivial=False)
+
     # ---- R4 --------------------------------------------------------------------------
     td = prog.typedefs.get("occa::trieNodeMap_t")
     ok = td is not None and td["ct"].startswith("std::map<char, occa::trieNode")
